@@ -18,6 +18,8 @@ FLOOR_UNITS = 21
 def run(prog, rep):
     cd = Codecs(prog)
     cd.flag_errors(rep)
+    from ..codecs import no_stale_derived_state
+    rep.attempt(no_stale_derived_state, prog, cd, rep)
     rep.explanation = (
         "size-identity: the nBytes definition of every Sized unit and the byte count of its writer's layout term are "
         "normalised to polynomials over shape atoms (len, segment sums, guarded terms) and must be identical; "
